@@ -19,7 +19,9 @@ RULE = ("(a) Programs: random trees (depth <= 3, <= 7 leaves) of CompositeTransf
         "integers, so every output value identifies its input coordinate and the exact set of stages it passed; compared with "
         "a numpy model of the docstring (after every stage but the last the first ceil(n/2) slices along split_dim are emitted, "
         "flattened); log-det = sum_k (#coordinates entering stage k) * log scale_k; inverse restores the input bit-for-bit; "
-        "shapes add_transform must refuse raise ValueError. Non-trivial: >= 2 parts/stages.")
+        "shapes add_transform must refuse raise ValueError. Programs run under a float64 default dtype or as a .double() twin of a model "
+        "built under the float32 default (results must stay float64); repeated calls on one wrapper object (other calls in between) "
+        "must reproduce the first, checked, results bit-for-bit. Non-trivial: >= 2 parts/stages.")
 ASSUMPTIONS = ["integer-valued float64 arithmetic is exact below 2^53", "the interpreter trusts only the leaves' own forward/inverse"]
 EXHAUSTIVE = {"quick": True, "thorough": True}
 EXPLANATION = "exhaustive over the multiscale shape/stage/split grid; programs are generated"
@@ -100,7 +102,7 @@ def _case(draw):
     D = draw(st.integers(2, 6))
     ctxk = draw(st.sampled_from([None, 2]))
     tree = draw(_tree(D, ctxk, draw(st.integers(1, 3))))
-    return {"kind": "program", "D": D, "ctx": ctxk, "tree": tree, "seed": draw(st.integers(0, 10 ** 6)),
+    return {"kind": "program", "D": D, "ctx": ctxk, "tree": tree, "seed": draw(st.integers(0, 10 ** 6)), "double_twin": draw(st.booleans()),
             "regime": draw(st.sampled_from(["small", "moderate", "fresh"])), "rows": draw(st.integers(1, 3))}
 
 
@@ -258,7 +260,10 @@ def _routing(case, res):
 
 def run_case(case):
     res = CaseResult()
-    with dtype_mode(True):
+    # programs run either with float64 as the default dtype, or - "double_twin" - as users get double precision: a model built
+    # under the float32 default and converted with .double() (accumulators created with torch.zeros(...) would stay float32)
+    twin = case["kind"] == "program" and case.get("double_twin")
+    with dtype_mode(not twin):
         if case["kind"] == "routing":
             res.labels += ["routing", "stages:%d" % case["stages"], "split_dim:%d" % case["split_dim"], "ndim:%d" % len(case["shape"])]
             _routing(case, res)
@@ -268,10 +273,13 @@ def run_case(case):
         b = zoo.build(tree, [D], ctxk)
         zoo.apply_regime(b.module, case["regime"], case["seed"])
         b.module.eval()
+        if twin:
+            b.module.double()
+            res.labels.append("double_twin")
         rows = case["rows"]
         g = torch.Generator().manual_seed(case["seed"] + 3)
-        x = torch.randn(rows, D, generator=g)
-        ctx = torch.randn(rows, ctxk, generator=g) if ctxk else None
+        x = torch.randn(rows, D, generator=g, dtype=torch.float64)
+        ctx = torch.randn(rows, ctxk, generator=g, dtype=torch.float64) if ctxk else None
         res.labels += ["program", "top:" + tree["t"], "ctx:%s" % (ctxk is not None)]
 
         def count(s):
@@ -281,6 +289,7 @@ def run_case(case):
                 return count(s["of"])
             return 1
         res.nontrivial = count(tree) >= 2
+        firsts = {}
         for inverse in (False, True):
             with torch.no_grad():
                 try:
@@ -291,10 +300,14 @@ def run_case(case):
                         continue
                     raise
                 got, lgot = (b.module.inverse(x, ctx) if inverse else b.module(x, ctx))
+            firsts[inverse] = (got, lgot)
             if not (bool(torch.isfinite(ref).all()) and bool(torch.isfinite(lref).all())):
                 res.inconclusive += 1
                 continue
             d = "inverse" if inverse else "forward"
+            if got.dtype != torch.float64 or lgot.dtype != torch.float64:
+                res.fail("wrapper_changes_dtype", type(b.module).__name__, "%s of a double-precision wrapper returns %s / %s" % (d, got.dtype, lgot.dtype), direction=d)
+                return res
             if tuple(got.shape) != tuple(ref.shape) or float((got - ref).abs().max()) > 1e-12 * (1 + float(ref.abs().max())):
                 res.fail("composition_outputs", type(b.module).__name__, "%s of %s differs from hand-chained leaves by %g" % (
                     d, tree["t"], float((got - ref).abs().max()) if tuple(got.shape) == tuple(ref.shape) else float("nan")), direction=d, ctx=ctxk is not None)
@@ -308,17 +321,18 @@ def run_case(case):
         with torch.no_grad():
             try:
                 f1, i1 = b.module(x, ctx), b.module.inverse(x, ctx)
-                x2 = torch.randn(rows + 1, D, generator=g)
-                c2 = torch.randn(rows + 1, ctxk, generator=g) if ctxk else None
+                x2 = torch.randn(rows + 1, D, generator=g, dtype=torch.float64)
+                c2 = torch.randn(rows + 1, ctxk, generator=g, dtype=torch.float64) if ctxk else None
                 b.module.inverse(x2, c2)
                 b.module(x2, c2)
                 f2, i2 = b.module(x, ctx), b.module.inverse(x, ctx)
-                if not (same(f1[0], f2[0]) and same(f1[1], f2[1])):
+                f0, i0 = firsts.get(False, f1), firsts.get(True, i1)      # the very first calls on this object (checked above)
+                if not (same(f0[0], f1[0]) and same(f0[1], f1[1]) and same(f1[0], f2[0]) and same(f1[1], f2[1])):
                     res.fail("wrapper_not_stateless", type(b.module).__name__, "forward repeated on the same wrapper object gives a different result", direction="forward")
                     return res
-                if not (same(i1[0], i2[0]) and same(i1[1], i2[1])):
+                if not (same(i0[0], i1[0]) and same(i0[1], i1[1]) and same(i1[0], i2[0]) and same(i1[1], i2[1])):
                     res.fail("wrapper_not_stateless", type(b.module).__name__, "inverse repeated on the same wrapper object gives a different result "
-                             "(max diff %g)" % float((i1[0] - i2[0]).abs().nan_to_num().max()), direction="inverse")
+                             "(max diff %g)" % max(float((i0[0] - i1[0]).abs().nan_to_num().max()), float((i1[0] - i2[0]).abs().nan_to_num().max())), direction="inverse")
                     return res
             except Exception as e:
                 if type(e).__name__ != "InputOutsideDomain":
